@@ -1,4 +1,5 @@
 import Ivg.Lemmas.Options
+import Ivg.Lemmas.RenderHist
 import Ivg.Gen.Tie.Globals
 import Ivg.Gen.Tie.ParamWrites
 import Ivg.Obligations
@@ -136,6 +137,30 @@ theorem seeds_registers {α β : Type} [Arith α] [Arith β] [Wide α β] (z : R
       absVM (z.reset posInf vb pal) = VM.init posInf pal :=
   Lemmas.Options.seeds_registers z posInf vb pal
 
+open Ivg.Ren Ivg.Spec.VM Ivg.Lemmas.RendererVM Ivg.RenderHist in
+/-- … over the life of a reused Renderer: after ANY history `h` (earlier graphics with other or the same
+    palette, registers overwritten by `SetCReg`/`SetNReg`, selectors moved, `SetRasterizer` calls) from ANY
+    state, `Reset vb pal` seeds ALL 64 colour registers and the palette with `pal` — also when `pal` equals
+    the palette already stored — clears ALL 64 number registers and both selectors, and the Renderer
+    represents the specification's initial machine state for `pal`. -/
+theorem seeds_registers_after_history {α β : Type} [Arith α] [Arith β] [Wide α β] (arc : ArcFn α β)
+    (posInf : α) (z0 : Renderer α β) (h : List (RenOp α)) (vb : ViewBox α) (pal : Palette) :
+    let z := (z0.runOps arc posInf (h ++ [.call (.reset vb pal)])).1
+    z.cReg = pal ∧ z.nReg = Regs.const zeroA ∧ z.cSel = 0 ∧ z.nSel = 0 ∧ z.lod0 = zeroA ∧ z.lod1 = posInf ∧
+    z.viewBox = vb ∧ z.palette = pal ∧ z.prevSmoothType = 0 ∧ z.r = rectAfter z0.r h ∧
+    TransformOK z ∧ absVM z = VM.init posInf pal :=
+  RenderHist.reset_reseeds arc posInf z0 h vb pal
+open Ivg.Ren Ivg.Lemmas.RendererVM in
+set_option maxRecDepth 100000 in
+/-- e.g. a graphic that overwrote `CREG[0]` and `NREG[63]`, then the SAME palette again: `CREG[0]` is the
+    palette's entry, `NREG[63]` is zero -/
+example :
+    let z := ((Renderer.zero : Renderer Num.F32 Num.F64).runOps arcF32 Ex.posInf
+      [.rast ⟨0, 0, 8, 8⟩, .call (.reset defaultViewBox defaultPalette),
+       .call (.setCReg 0 false (Color.rgbaColor ⟨1, 2, 3, 4⟩)), .call (.setNReg 1 false (Ex.n 7)),
+       .call (.reset defaultViewBox defaultPalette)]).1
+    z.cReg.get6 0 = RGBA.black ∧ z.nReg.get6 63 = Ex.n 0 := by decide +kernel
+
 open Ivg.Spec.VM in
 /-- … so that (with `decoded_palette_valid`) a path painted from a register that still holds its
     palette seed is filled flat, or not at all — never with a gradient. -/
@@ -169,5 +194,6 @@ end Ivg.Props.C14
   Ivg.Props.C14.withPalette_discards, Ivg.Props.C14.withPalette_last, Ivg.Props.C14.withColorAt_entry,
   Ivg.Props.C14.withColorAt_others, Ivg.Props.C14.user_sanitised, Ivg.Props.C14.never_gradient,
   Ivg.Props.C14.decoded_palette_valid, Ivg.Props.C14.reset_receives_palette, Ivg.Props.C14.seeds_registers,
+  Ivg.Props.C14.seeds_registers_after_history,
   Ivg.Props.C14.palette_paint_flat,
   Ivg.Gen.Tie.param_writes_frame, Ivg.Gen.Tie.no_global_writes]
